@@ -6,10 +6,12 @@ dir=/verif/seeded/$id
 [ -f "$dir/patch.diff" ] || { echo "no $dir/patch.diff"; exit 2; }
 checks="$@"
 [ -z "$checks" ] && checks=$(python3 -c "import json;print(' '.join(json.load(open('$dir/meta.json'))['run_checks']))")
+# evidence and replay files of these runs do not belong to the unchanged tree: keep them out of /verif
+export VERIF_OUT=/tmp/seeded-out-$$
 cd /repo
 if [ -n "$(git status --porcelain)" ]; then echo "/repo is not clean"; exit 2; fi
 git apply "$dir/patch.diff" || { echo "patch does not apply"; exit 2; }
-trap 'git -C /repo checkout -- . ; git -C /repo clean -fdq pkg cmd proto 2>/dev/null' EXIT
+trap 'git -C /repo checkout -- . ; git -C /repo clean -fdq pkg cmd proto 2>/dev/null; rm -rf /tmp/seeded-out-'$$ EXIT
 for c in $checks; do
   out=$(/verif/scripts/check.sh $c quick 2>&1); rc=$?
   if echo "$out" | grep -q "^VIOLATION property=$c"; then
